@@ -19,6 +19,9 @@ CONSTANTS
   TrackOrder = FALSE
   WithDemotion = FALSE
   ReadonlyEverywhere = TRUE
+  MaxMigs = 1
+  StaleTableAtStart = FALSE
+  MaxFollowed = 0
 INVARIANTS NoRouteDuringRefresh
 CONSTRAINT HopBound
 CHECK_DEADLOCK FALSE
